@@ -5,15 +5,21 @@ import difflib, os, sys
 d, name, expect, about = sys.argv[1:5]
 rest = sys.argv[5:]
 out = ["# expect: %s" % expect, "# about: %s" % about]
+files = {}
+order = []
 for i in range(0, len(rest), 3):
     f, old, new = rest[i:i+3]
     old = old.encode().decode("unicode_escape") if "\\n" in old else old
     new = new.encode().decode("unicode_escape") if "\\n" in new else new
+    if f not in files:
+        files[f] = open(os.path.join("/repo", f)).read()
+        order.append(f)
+    if files[f].count(old) < 1:
+        print("old text not found in", f, ":", old[:60]); sys.exit(1)
+    files[f] = files[f].replace(old, new, 1)
+for f in order:
     src = open(os.path.join("/repo", f)).read()
-    if src.count(old) < 1:
-        print("old text not found in", f); sys.exit(1)
-    dst = src.replace(old, new, 1)
-    diff = difflib.unified_diff(src.splitlines(True), dst.splitlines(True), "a/" + f, "b/" + f, n=3)
+    diff = difflib.unified_diff(src.splitlines(True), files[f].splitlines(True), "a/" + f, "b/" + f, n=3)
     out.append("".join(diff).rstrip("\n"))
 os.makedirs(os.path.join("/verif", d), exist_ok=True)
 p = os.path.join("/verif", d, name + ".patch")
